@@ -52,6 +52,8 @@ type Contract struct {
 	NoNil    bool // do not generate nil-dereference obligations (sweep mode)
 	Props    []string
 	Alloc    *Clause
+	EffectWhen map[string]*Clause // effects none(x) when <cond>: forbidden only in executions whose entry state satisfies cond
+	Boundary map[string]bool // effects boundary(x): this function is the declared gate to the source of effect x
 	Effects  []string // forbidden effects: "clock", "random", "maporder", "devwrite"
 	Iface    bool   // contract of an interface method (FnName = "Type.Method")
 	Where    string
@@ -374,10 +376,39 @@ func parseContractFile(path, pkgPath string) (*ContractFile, error) {
 			case "effects":
 				// effects none(clock, random)
 				r := strings.TrimSpace(l.rest)
+				if strings.HasPrefix(r, "boundary(") {
+					r = strings.TrimSuffix(strings.TrimPrefix(r, "boundary("), ")")
+					if cur.Boundary == nil {
+						cur.Boundary = map[string]bool{}
+					}
+					for _, e := range strings.Split(r, ",") {
+						if e = strings.TrimSpace(e); e != "" {
+							cur.Boundary[e] = true
+						}
+					}
+					break
+				}
+				var when *Clause
+				if i := strings.Index(r, ") when "); i >= 0 {
+					l2 := l
+					l2.rest = strings.TrimSpace(r[i+len(") when "):])
+					c, err := mk(l2, false)
+					if err != nil {
+						return nil, err
+					}
+					when = &c
+					r = r[:i+1]
+				}
 				r = strings.TrimSuffix(strings.TrimPrefix(r, "none("), ")")
 				for _, e := range strings.Split(r, ",") {
 					if e = strings.TrimSpace(e); e != "" {
 						cur.Effects = append(cur.Effects, e)
+						if when != nil {
+							if cur.EffectWhen == nil {
+								cur.EffectWhen = map[string]*Clause{}
+							}
+							cur.EffectWhen[e] = when
+						}
 					}
 				}
 			case "fresh":
